@@ -116,3 +116,18 @@ Fixpoint go_range {K V St : Type} (m : list (K * V)) (body : K -> V -> St -> opt
   | [] => Some st
   | (k, v) :: r => match body k v st with None => None | Some st' => go_range r body st' end
   end.
+
+(* ---------------- in-place write through a fresh slice of a []byte held by value ----------------
+   binary.BigEndian.PutUint16/32/64(s[lo:hi], v) where s is a []byte FIELD: the slice expression
+   s[lo:hi] shares s's array, so the n bytes land in s at offset lo.  Panics: the slice expression
+   (bounds) or PutUintN's index of element n-1 of a slice shorter than n.  Result: the new s. *)
+Definition bs_put (s : bslice) (lo hi : Z) (n : nat) (v : Z) : option bslice :=
+  match bs_slice s lo hi with
+  | None => None
+  | Some _ =>
+      if hi - lo <? Z.of_nat n then None
+      else match s with
+           | None => None
+           | Some l => Some (Some (splice l lo (be n v)))
+           end
+  end.
